@@ -1,16 +1,24 @@
-GO_PKG = "."
-GO_PKGNAME = "dht"
-HARNESS = ["dht/sim_test.go", "dht/lookup_test.go", "dht/world_test.go", "dht/c06_test.go"]
-GO_TEST = "TestVerifC06"
+# two runs: the whole operations on the standard client (package dht, internal test), and the corrective puts after
+# a value search on the standard and the accelerated (fullrt) client, driven through the public API from the
+# external test package with the scripted network of the C04 harness
+GO_RUNS = [
+    {"pkg": ".", "pkgname": "dht", "test": "TestVerifC06", "share": 0.75,
+     "harness": ["dht/sim_test.go", "dht/lookup_test.go", "dht/world_test.go", "dht/c06_test.go"]},
+    {"pkg": ".", "pkgname": "dht_test", "test": "TestVerifC06F", "share": 0.25,
+     "harness": ["dht/c04_test.go", "dht/c06f_test.go"]},
+]
 RUN_MODULE = "Run_C06"
-COQ_TARGETS = ["Corr/Run_C06.vo", "Proofs/PutFlowProofs.vo", "Proofs/LookupProofs.vo"]
-N = {"quick": 240, "thorough": 4800}
+COQ_TARGETS = ["Corr/Run_C06.vo", "Corr/Run_C06F.vo", "Proofs/PutFlowProofs.vo", "Proofs/LookupProofs.vo", "Proofs/ValueSearchProofs.vo"]
+N = {"quick": 320, "thorough": 6400}
 RULE = ("PutValue, classic Provide, optimistic Provide (primed network-size estimator) and SearchValue (corrective puts) on random networks with failing "
         "and lying peers, four address filters (identity, public only, private only, nothing passes) over a public+private+loopback address set, "
         "K in {1,2,3,5,20}; the lookup inside each operation is driven one response at a time; every PUT_VALUE/ADD_PROVIDER the fake network "
         "sees is recorded with recipient and a content check, also those sent in the background after the call returned; distinct = distinct "
-        "(operation, filter, number of sends class, error, K, size class)")
-TRUSTED = ["sha256 ids, kbucket NearestPeers", "the scripted network echoing PUT_VALUE and accepting ADD_PROVIDER", "the stop function of optimistic provide (gamma-function thresholds) is not modelled: for it only the property itself is evaluated on the trace"]
+        "(operation, filter, number of sends class, error, K, size class). Second run (a quarter of the cases): SearchValue / GetValue on the "
+        "standard and the accelerated (fullrt) client over the scripted network of the C04 harness (2-12 responders: newer / older / tied / stale / "
+        "invalid / mis-keyed / no record / failing, local record, quorum), 20 fixed scenarios first; every PUT_VALUE handed to the network is "
+        "recorded with recipient, value, key and whether its context was still live (a request on a finished context is not delivered)")
+TRUSTED = ["value-search run: the standard client's lookup result is not observable through the public API: the recipients are checked between the peers that answered without error and the whole table (a request failing after the lookup terminated leaves its peer in the result); exact for the accelerated client", "sha256 ids, kbucket NearestPeers", "the scripted network echoing PUT_VALUE and accepting ADD_PROVIDER", "the stop function of optimistic provide (gamma-function thresholds) is not modelled: for it only the property itself is evaluated on the trace"]
 ASSUMPTIONS = ["the closest-peers lookup of the operation succeeds (property hypothesis); no cancellation in these runs"]
 TECHNIQUE = "Coq proof (decision functions of PutValue/Provide/corrective puts composed with the lookup theorems) + differential correspondence of the whole operations under synctest"
 LEVEL_TEXT = ("Theorems in coq/Props/C06.v: PutValue sends nothing before the local write and then exactly the lookup's peers, once each, never self; refuses "
@@ -19,7 +27,7 @@ LEVEL_TEXT = ("Theorems in coq/Props/C06.v: PutValue sends nothing before the lo
               "exactly to the returned peers that did not return the best value. Each run drives the four real operations and checks recipients, "
               "content, local-first and the address filter on the implementation's trace and against the model.")
 LEVEL_NOTE = ("Proofs are about Gallina decision functions plus the lookup model; the tie to Go is the correspondence run (differential, bounded by the generator). "
-              "fullrt's bulk variants are covered by C16. Trusted: Coq kernel, vm_compute, harness, scripted network.")
+              "fullrt's bulk variants are covered by C16; its corrective puts by the value-search run. Trusted: Coq kernel, vm_compute, harness, scripted network.")
 
 
 def classify(desc, code):
